@@ -43,6 +43,7 @@ type StepScript struct {
 	RunMS           int64 // virtual duration of the execution (0: completes as soon as scheduled)
 	CancelMS        int64 // time between cancel signal and cancelled_early
 	ByValue         map[int64]RunKind
+	ByValueMS       map[int64]int64 // per-input-value execution time (virtual ms)
 	ReadSchemaFails bool
 	ClientCloseFail bool
 	ConnCloseFails  bool
